@@ -21,7 +21,7 @@ from wbgen import a1
 
 NAME = 'clocksim'
 # probes that count as injected disturbances (reported under faults_fired in the evidence)
-FAULT_PROBES = ('env_calendar_firstweekday_changed', 'env_decimal_context_changed', 'env_warnings_filter_changed', 'clock_stepped_backward', 'tz_changed', 'dst_transition_crossed', 'midnight_crossed_inside_one_evaluation', 'midnight_crossed_between_two_queries', 'month_length_class_changed', 'override_between_two_instants')
+FAULT_PROBES = ('env_calendar_firstweekday_changed', 'env_decimal_context_changed', 'env_warnings_filter_changed', 'env_root_logger_level_changed', 'clock_stepped_backward', 'tz_changed', 'dst_transition_crossed', 'midnight_crossed_inside_one_evaluation', 'midnight_crossed_between_two_queries', 'month_length_class_changed', 'override_between_two_instants')
 NEEDS_REF = True       # invariance mode asks a foreign process (other hash seed) for the same cells once per run
 WB_PATH = '/simfs/clock.xlsx'
 EPOCH = datetime.datetime(1970, 1, 1)
@@ -536,6 +536,8 @@ def _exec_invariance(plan):
                     K_ = ns2_['ExcelInPython']
                     probe('pristine_side_used_a_brand_new_class')
                 pex = Executor().set_executed_class(class_object=K_)
+                if t.get('deep'):
+                    core.reset_interpreter_state(plan.get('env'))
                 if omap:
                     pex.set_cells([Cell(0, c_, r_, dec_value(v_)) for (c_, r_), v_ in sorted(omap.items())])
                 out, _n = evaluate(pex, t, cc, rr)
@@ -1037,6 +1039,7 @@ def ref_handle(req):
         if isinstance(v, str) and v.startswith('=') and not _reads_today(spec, k):
             cc, rr = wbgen.parse_a1(k)
             simclock.set_ns(req['ns'])
+            core.reset_interpreter_state(None)
             try:
                 out[k] = outcome_of_value(Executor().set_executed_class(class_object=K).get_cell(Cell(0, cc, rr)).value)
             except Exception as e:
